@@ -35,12 +35,22 @@ CaseSet ==
   \cup { <<"x", Closers[c], "y">> : c \in 1..NO }
   \cup { <<Openers[o], Closers[o], Closers[o]>> : o \in 1..NO }
 Cases == SetToSeq(CaseSet)
-Picked == 1..Len(Cases)
+(* two-word operators with their words one blank apart (the operator) and apart by anything else (two tokens; not an operator),
+   followed by a print and an unknown tag on later lines *)
+TwoWords == << <<"not", "in", "[1]">>, <<"is", "not", "odd">>, <<"starts", "with", "'x'">>, <<"ends", "with", "'x'">>, <<"is", "not", "defined">> >>
+Seps == << <<32>>, <<32, 32>>, <<10>>, <<9>>, <<13, 10>>, <<32, 10, 32>> >>
+OpSrcs == [q \in 1..(Len(TwoWords) * Len(Seps)) |->
+             LET w == TwoWords[((q - 1) % Len(TwoWords)) + 1]
+                 sp == Seps[((q - 1) \div Len(TwoWords)) + 1] IN
+             S2B("L1") \o <<10>> \o S2B("{{ a " \o w[1]) \o sp \o S2B(w[2] \o " " \o w[3] \o " }}") \o <<10>> \o S2B("{{ c }}")
+             \o <<10>> \o S2B("{% zz %}")]
+AllSrc == [j \in 1..Len(Cases) |-> Lines(Cases[j])] \o OpSrcs
+Picked == 1..Len(AllSrc)
 Init == GenInit(v_lvl, v_idx)
 Next == GenNext(v_lvl, v_idx, Picked, 32)
 
 Case(j) ==
-  LET src == Lines(Cases[j])
+  LET src == AllSrc[j]
       ts == LX!Tokens(src)
       pr == ParseTokens2(ts) IN
   [id |-> "C20s-" \o ToString(j), fam |-> "blocks", k |-> "parse", env |-> "core", srcs |-> ("t" :> src) @@ ("e" :> S2B("E{% block b %}{% endblock %}")),
@@ -51,7 +61,7 @@ Case(j) ==
 Out == v_lvl < 2 \/ Emit(Case(v_idx))
 (* design: a source of this family is a template exactly when every opener is closed by its own closer, innermost first;
    here: stated on the one-level cases *)
-OneLevel == (v_lvl = 2 /\ Len(Cases[v_idx]) = 5 /\ Cases[v_idx][1] = "x" /\ Cases[v_idx][5] = "y") =>
+OneLevel == (v_lvl = 2 /\ v_idx <= Len(Cases) /\ Len(Cases[v_idx]) = 5 /\ Cases[v_idx][1] = "x" /\ Cases[v_idx][5] = "y") =>
   LET c == Cases[v_idx]
       o == CHOOSE q \in 1..NO : Openers[q] = c[2] IN
   (\E q \in 1..NO : Closers[q] = c[4]) => (Case(v_idx).exp.ok <=> c[4] = Closers[o])
